@@ -210,6 +210,9 @@ pub struct LoopScn {
     pub precision_override: Option<u128>,
     pub overheads: [u128; 4],
     pub panic: Option<PanicPlan>,
+    /// A second, independent panic site (other threads, possibly another
+    /// phase): several threads unwinding at different points of one round.
+    pub panic2: Option<PanicPlan>,
     pub spurious_parks: Vec<(usize, u32)>,
     /// Thread count of a small benchmark run first on the same shared
     /// context (one thread pool reused by consecutive benchmarks with
@@ -247,6 +250,7 @@ impl Default for LoopScn {
             precision_override: None,
             overheads: [0; 4],
             panic: None,
+            panic2: None,
             spurious_parks: Vec::new(),
             prelude_threads: 0,
         }
@@ -282,6 +286,25 @@ fn opt4_parse(v: &Value) -> Option<[Option<u64>; 4]> {
         out[i] = x.as_u64();
     }
     Some(out)
+}
+
+fn parse_panic(p: &Value) -> Option<Option<PanicPlan>> {
+    if p.is_null() {
+        return Some(None);
+    }
+    Some(Some(PanicPlan {
+        phase: match p["phase"].as_str()? {
+            "gen" => PanicPhase::Gen,
+            "benched" => PanicPhase::Benched,
+            _ => return None,
+        },
+        tids: p["tids"]
+            .as_array()?
+            .iter()
+            .map(|x| x.as_u64().map(|x| x as usize))
+            .collect::<Option<Vec<_>>>()?,
+        index: p["index"].as_u64()? as u32,
+    }))
 }
 
 fn panic_phase_name(p: PanicPhase) -> &'static str {
@@ -349,6 +372,9 @@ impl LoopScn {
             "precision_override": self.precision_override.map(j128),
             "overheads": self.overheads.iter().map(|&o| j128(o)).collect::<Vec<_>>(),
             "panic": self.panic.as_ref().map(|p| json!({
+                "phase": panic_phase_name(p.phase), "tids": p.tids, "index": p.index,
+            })),
+            "panic2": self.panic2.as_ref().map(|p| json!({
                 "phase": panic_phase_name(p.phase), "tids": p.tids, "index": p.index,
             })),
             "spurious_parks": self.spurious_parks.iter().map(|&(t, k)| json!([t, k])).collect::<Vec<_>>(),
@@ -420,22 +446,8 @@ impl LoopScn {
                 x => Some(parse128(x)?),
             },
             overheads,
-            panic: match &v["panic"] {
-                Value::Null => None,
-                p => Some(PanicPlan {
-                    phase: match p["phase"].as_str()? {
-                        "gen" => PanicPhase::Gen,
-                        "benched" => PanicPhase::Benched,
-                        _ => return None,
-                    },
-                    tids: p["tids"]
-                        .as_array()?
-                        .iter()
-                        .map(|x| x.as_u64().map(|x| x as usize))
-                        .collect::<Option<Vec<_>>>()?,
-                    index: p["index"].as_u64()? as u32,
-                }),
-            },
+            panic: parse_panic(&v["panic"])?,
+            panic2: parse_panic(v.get("panic2").unwrap_or(&Value::Null))?,
             spurious_parks: v["spurious_parks"]
                 .as_array()?
                 .iter()
@@ -466,6 +478,10 @@ impl LoopScn {
         h.u64(self.clock.frequency);
         h.u64(self.clock.step);
         h.u64(self.clock_faults.len() as u64);
+        if let Some(p) = &self.panic2 {
+            h.u64(p.phase as u64 + 11);
+            h.u64(p.index as u64);
+        }
         if let Some(p) = &self.panic {
             h.u64(p.phase as u64 + 1);
             h.u64(p.index as u64);
@@ -806,7 +822,7 @@ impl Drop for SdOut {
 fn gen_input<I: Val>(c: &LoopCtx) -> I {
     let tid = probe::tid().unwrap_or(0);
     let k = c.gen_count[tid].fetch_add(1, Relaxed);
-    if let Some(p) = &c.scn.panic {
+    for p in c.scn.panic.iter().chain(c.scn.panic2.iter()) {
         if p.phase == PanicPhase::Gen && p.index == k && p.tids.contains(&tid) {
             inject_panic(PanicPhase::Gen);
         }
@@ -832,7 +848,7 @@ fn call_body<O: Val>(c: &LoopCtx, id: u64, consume: bool) -> O {
     let tid = probe::tid().unwrap_or(0);
     let k = c.call_count[tid].fetch_add(1, Relaxed);
     probe::event(UserEv::CallBegin { id });
-    if let Some(p) = &c.scn.panic {
+    for p in c.scn.panic.iter().chain(c.scn.panic2.iter()) {
         if p.phase == PanicPhase::Benched && p.index == k && p.tids.contains(&tid) {
             inject_panic(PanicPhase::Benched);
         }
